@@ -16,15 +16,38 @@ import (
 
 // ---------- (a) ----------
 
-// verifC14Match[i] is the (symbolic) answer of pattern i's matches(); the
-// pattern's index is carried in its pattern text.
+// Pattern TEXTS are drawn from a pool: list position k carries the text
+// "<id[k]>" (or "!<id[k]>") with id[k] symbolic in 0..n-1, so a text may occur
+// several times in the list, with the same or with different negation.
+// verifC14Match[j] is the (symbolic) answer of matches() for text j - the same
+// answer at every position that carries that text (the match result is a
+// function of pattern text, path and directory flag).
 var verifC14Match []bool
-var verifC14Calls []int
+var verifC14Ptrs []*ignorePattern // the pattern objects of the ignorer under test, by position
+var verifC14Calls []int           // matches() calls per pattern object
+var verifC14OtherCalls int        // matches() calls on objects that are not in the ignorer
+var verifC14Dir bool              // the directory flag of the query
+
+const verifC14QueryPath = "x"
 
 func verifC14StubMatches(p *ignorePattern, path string, directory bool) bool {
-	idx := int(p.pattern[0] - '0')
-	verifC14Calls[idx]++
-	return verifC14Match[idx]
+	known := false
+	for k := range verifC14Ptrs {
+		if verifC14Ptrs[k] == p {
+			verifC14Calls[k]++
+			known = true
+		}
+	}
+	if !known {
+		verifC14OtherCalls++
+	}
+	vAssert(vAnd(path == verifC14QueryPath, directory == verifC14Dir), "each pattern is asked about the queried path and directory flag")
+	c := p.pattern[0]
+	r := false
+	for j := range verifC14Match {
+		r = vOr(r, vAnd(c == byte('0'+j), verifC14Match[j]))
+	}
+	return r
 }
 
 var verifStubs_VerifC14Loop = map[string]any{
@@ -50,21 +73,51 @@ func verifC14Expected(negated, match []bool) ignore.IgnoreStatus {
 	return want
 }
 
-func verifC14CheckLoop(ig ignore.Ignorer, negated []bool) {
+// verifC14IDs: one symbolic text id per list position.
+func verifC14IDs(n int) []int {
+	ids := make([]int, n)
+	for k := 0; k < n; k++ {
+		vLabel("text")
+		ids[k] = vInt(0, n-1)
+	}
+	vLabel("")
+	return ids
+}
+
+func verifC14Text(id int) string {
+	return string([]byte{byte('0' + id)})
+}
+
+func verifC14CheckLoop(ig ignore.Ignorer, ptrs []*ignorePattern, ids []int, negated []bool) {
 	n := len(negated)
 	verifC14Match = make([]bool, n)
-	verifC14Calls = make([]int, n)
+	verifC14Ptrs = ptrs
+	verifC14Calls = make([]int, len(ptrs))
+	verifC14OtherCalls = 0
 	for k := 0; k < n; k++ {
 		vLabel("match")
 		verifC14Match[k] = vBool()
 	}
 	vLabel("directory")
-	directory := vBool()
+	verifC14Dir = vBool()
 	vLabel("")
 
-	status, cont := ig.Ignore("x", directory)
+	status, cont := ig.Ignore(verifC14QueryPath, verifC14Dir)
 
-	want := verifC14Expected(negated, verifC14Match)
+	// the match result of list position k is the result of its text
+	matchAt := make([]bool, n)
+	repeated := false
+	for k := 0; k < n; k++ {
+		r := false
+		for j := 0; j < n; j++ {
+			r = vOr(r, vAnd(ids[k] == j, verifC14Match[j]))
+		}
+		matchAt[k] = r
+		for j := 0; j < k; j++ {
+			repeated = vOr(repeated, ids[j] == ids[k])
+		}
+	}
+	want := verifC14Expected(negated, matchAt)
 	switch want {
 	case ignore.IgnoreStatusNominal:
 		vCover("nominal")
@@ -75,39 +128,45 @@ func verifC14CheckLoop(ig ignore.Ignorer, negated []bool) {
 	}
 	vAssert(status == want, "status is decided by the last matching pattern (ignored iff non-negated, unignored iff negated, nominal iff none matches)")
 	vAssert(!cont, "Mutagen-style ignores never ask for traversal beneath ignored content")
-	for k := 0; k < n; k++ {
+	for k := range verifC14Calls {
 		vAssert(verifC14Calls[k] <= 1, "a pattern is evaluated at most once per query")
+	}
+	vAssert(verifC14OtherCalls == 0, "only the ignorer's own patterns are evaluated")
+	if repeated {
+		vCover("a pattern text occurs more than once")
 	}
 }
 
-// VerifC14Loop: ignorer literal; `negated` symbolic per pattern; the negated
-// pattern count is the one NewIgnorer establishes (own count; established by
-// the real constructor in VerifC14NewIgnorer).
+// VerifC14Loop: ignorer literal; `negated` and the text id symbolic per
+// pattern; the negated pattern count is the one NewIgnorer establishes (own
+// count; established by the real constructor in VerifC14NewIgnorer).
 func VerifC14Loop() {
 	n := vRange(0, vParam("maxpatterns", 4))
 	negated := make([]bool, n)
+	ids := verifC14IDs(n)
 	ig := &ignorer{}
 	for k := 0; k < n; k++ {
 		vLabel("negated")
 		negated[k] = vBool()
-		ig.patterns = append(ig.patterns, &ignorePattern{negated: negated[k], pattern: string([]byte{byte('0' + k)})})
+		ig.patterns = append(ig.patterns, &ignorePattern{negated: negated[k], pattern: verifC14Text(ids[k])})
 		if negated[k] {
 			ig.negatedPatternCount++
 		}
 	}
-	verifC14CheckLoop(ig, negated)
+	verifC14CheckLoop(ig, ig.patterns, ids, negated)
 }
 
 // VerifC14NewIgnorer: the ignorer comes from the real NewIgnorer on the
-// patterns "<k>" / "!<k>".
+// patterns "<id>" / "!<id>" (texts may repeat).
 func VerifC14NewIgnorer() {
 	n := vRange(0, vParam("maxpatterns", 4))
 	negated := make([]bool, n)
 	patterns := make([]string, n)
+	ids := verifC14IDs(n)
 	for k := 0; k < n; k++ {
 		vLabel("negated")
 		negated[k] = vBool()
-		patterns[k] = string([]byte{byte('0' + k)})
+		patterns[k] = verifC14Text(ids[k])
 		if negated[k] {
 			patterns[k] = "!" + patterns[k]
 		}
@@ -118,6 +177,11 @@ func VerifC14NewIgnorer() {
 		return
 	}
 	real := ig.(*ignorer)
+
+	// the property: behaviour of the constructed ignorer
+	verifC14CheckLoop(ig, real.patterns, ids, negated)
+
+	// the invariant harness 'loop' relies on
 	vAssert(len(real.patterns) == n, "one parsed pattern per given pattern")
 	cnt := uint(0)
 	for k := 0; k < n && k < len(real.patterns); k++ {
@@ -127,7 +191,6 @@ func VerifC14NewIgnorer() {
 		}
 	}
 	vAssert(real.negatedPatternCount == cnt, "negated pattern count equals the number of negated patterns")
-	verifC14CheckLoop(ig, negated)
 }
 
 // ---------- (b) ----------
